@@ -6,21 +6,26 @@ from analysis.mir import Body, CallGraph, callee_name, callee_id
 AUDIT = json.load(open(os.path.join(os.path.dirname(__file__), "audit", "panics.json")))["entries"]
 
 
+def _fn_key(site):
+    """the enclosing named function: code moved into a closure (loop -> iterator adapter) keeps its key"""
+    return re.sub(r"(::\{closure#\d+\})+$", "", site.fn.short)
+
+
 def site_key(site):
     b = site.body
     t = site.term
     if site.kind.startswith("assert:"):
         ops = ",".join(pn.operand_key(b, o) for o in t["ops"])
-        return "%s/%s(%s)" % (site.fn.short, site.kind, ops)
+        return "%s/%s(%s)" % (_fn_key(site), site.kind, ops)
     if site.kind == "unwrap":
-        return "%s/unwrap(%s)" % (site.fn.short, pn.operand_key(b, t["args"][0]) if t["args"] else "?")
+        return "%s/unwrap(%s)" % (_fn_key(site), pn.operand_key(b, t["args"][0]) if t["args"] else "?")
     if site.kind == "index":
         ops = ",".join(pn.operand_key(b, o) for o in t["args"][:2])
-        return "%s/index:%s(%s)" % (site.fn.short, site.detail, ops)
+        return "%s/index:%s(%s)" % (_fn_key(site), site.detail, ops)
     if site.kind == "panic":
         msg = pn.panic_message(site) or ""
-        return "%s/panic:%s" % (site.fn.short, re.sub(r"\s+", " ", msg)[:40])
-    return "%s/%s:%s" % (site.fn.short, site.kind, site.detail)
+        return "%s/panic:%s" % (_fn_key(site), re.sub(r"\s+", " ", msg)[:40])
+    return "%s/%s:%s" % (_fn_key(site), site.kind, site.detail)
 
 
 _cg = {}
